@@ -126,11 +126,16 @@ class PathSummary:
 
 
 _VALUE_ONLY = [False]
+_OPAQUE = [frozenset()]
 
 
 def _assign(env, effects, target, value, node):
     """Bind `target = value` (value already substituted)."""
     if isinstance(target, ast.Name):
+        if target.id in _OPAQUE[0]:
+            env.pop(target.id, None)  # kept symbolic on request; the binding itself is recorded as an effect
+            effects.append(("bind", target, value, node))
+            return
         if _VALUE_ONLY[0]:
             from .derefactor import _value_like
 
@@ -186,6 +191,8 @@ def summarise_path(cfg, path, start_env=None):
         if kind != "stmt" or node is None:
             if kind == "return" and node is not None:
                 effects.append(("return", subst(node.value, env) if getattr(node, "value", None) is not None else None, None, node))
+            elif kind == "raise_stmt" and node is not None:
+                effects.append(("raise", subst(node.exc, env) if getattr(node, "exc", None) is not None else None, None, node))
             continue
         s = node
         if isinstance(s, ast.Assign):
@@ -297,7 +304,7 @@ def paths(cfg, src=None, dst=None, avoid=()):
         stack.append(iter(sorted(g.successors(nxt))))
 
 
-def summaries(cfg, src=None, dst=None, start_env=None, feasible_only=True, include_raise=False, value_only=False):
+def summaries(cfg, src=None, dst=None, start_env=None, feasible_only=True, include_raise=False, value_only=False, opaque=()):
     """PathSummary for every acyclic path (loops entered at most once).
     value_only: only value-like definitions (names, attributes, subscripts, arithmetic, pure builtins) are substituted;
     a local bound to a fresh object (constructor call, display, comprehension) keeps standing for itself."""
@@ -309,10 +316,12 @@ def summaries(cfg, src=None, dst=None, start_env=None, feasible_only=True, inclu
         if any(cfg.kind(a) == "return" and cfg.kind(b) == "except" for a, b in zip(p, p[1:])):
             continue
         _VALUE_ONLY[0] = bool(value_only)
+        _OPAQUE[0] = frozenset(opaque)
         try:
             s = summarise_path(cfg, p, start_env)
         finally:
             _VALUE_ONLY[0] = False
+            _OPAQUE[0] = frozenset()
         if feasible_only and any((t, not pol) in s.atoms for t, pol in s.atoms if not t.startswith("<iter>")):
             continue
         out.append(s)
